@@ -38,6 +38,9 @@ type WorkflowNode struct {
 	staticValues     map[string]any
 	dependencySetter func(fromNodeKey string, typ dependencyType)
 	mappedFieldPath  map[string]any
+	// installedStatic: the static values an earlier Compile has already handed to the graph
+	// (joined field path -> value); nil until the first ones are installed
+	installedStatic map[string]any
 }
 
 // Workflow is wrapper of graph, replacing AddEdge with declaring dependencies and field mappings between nodes.
@@ -588,20 +591,40 @@ func (wf *Workflow[I, O]) compile(ctx context.Context, options *graphCompileOpti
 	for _, key := range wf.nodeOrder {
 		n := wf.workflowNodes[key]
 		if len(n.staticValues) > 0 {
-			value := make(map[string]any, len(n.staticValues))
 			var paths []FieldPath
 			for path, v := range n.staticValues {
 				if err := validateStaticValue(n.key, splitFieldPath(path), v, wf.g.getNodeInputType(n.key)); err != nil {
 					return nil, err
 				}
 
-				value[path] = v
-				paths = append(paths, splitFieldPath(path))
+				// a path that an earlier (failed) Compile has already handed to the graph is set again:
+				// the new value replaces the old one, as it does when no Compile lies in between
+				if _, ok := n.installedStatic[path]; !ok {
+					paths = append(paths, splitFieldPath(path))
+				}
 			}
 
-			if err := n.checkAndAddMappedPath(paths); err != nil {
-				return nil, err
+			if len(paths) > 0 {
+				if err := n.checkAndAddMappedPath(paths); err != nil {
+					return nil, err
+				}
 			}
+
+			if n.installedStatic != nil {
+				// the handler installed by that earlier Compile reads this map; no runnable exists
+				// yet (after a successful Compile SetStaticValue is refused)
+				for path, v := range n.staticValues {
+					n.installedStatic[path] = v
+				}
+				n.staticValues = make(map[string]any)
+				continue
+			}
+
+			value := make(map[string]any, len(n.staticValues))
+			for path, v := range n.staticValues {
+				value[path] = v
+			}
+			n.installedStatic = value
 
 			pair := handlerPair{
 				invoke: func(in any) (any, error) {
